@@ -1219,7 +1219,7 @@ package main
 //@   note abstract here (its enumeration is covered by the C05 scan)
 
 //@ func parsePackageInfo
-//@   props C07 C03
+//@   props C07 C03 C15
 //@   modifies maps
 //@   requires live: live(ps)
 //@   ghost SC Scope              -- the scope in which the block's declarations are parsed
@@ -2124,7 +2124,7 @@ package main
 //@   note abstract: stores the info in the global record-info dictionary (a package-level dictionary, never a visited set)
 
 //@ func transTVFTypeWithSet
-//@   props C16
+//@   props C16 C15
 //@   modifies maps
 //@   ghost G map[string]bool     -- the visited set as of the last marking done by this call
 //@   ghost-assume start: G == domof(visited.Dict.Fdict)
@@ -2132,10 +2132,15 @@ package main
 //@   panics may
 //@   decreases lex(vroom(domof(visited.Dict.Fdict)), ftsize(ftp))
 //@   ensures visited-only-grows: dsubset(old(domof(visited.Dict.Fdict)), domof(visited.Dict.Fdict))
+//@   ensures C15 C16 a-type-variable-is-replaced: is(FType_FTypeVar, ftp) ==> result == transTV(FType_FTypeVar_Value(ftp))
+//@   ensures C15 C16 every-argument-of-an-external-generic-type-is-translated: is(FType_FParamd, ftp) ==> is(FType_FParamd, result) && FType_FParamd_Value(result).Name == FType_FParamd_Value(ftp).Name && len(FType_FParamd_Value(result).Targs) == len(FType_FParamd_Value(ftp).Targs) && (forall k int :: {FType_FParamd_Value(result).Targs[k]} 0 <= k && k < len(FType_FParamd_Value(ftp).Targs) && is(FType_FTypeVar, FType_FParamd_Value(ftp).Targs[k]) ==> FType_FParamd_Value(result).Targs[k] == transTV(FType_FTypeVar_Value(FType_FParamd_Value(ftp).Targs[k])))
+//@   ensures C15 C16 every-component-of-a-tuple-is-translated: is(FType_FTuple, ftp) ==> is(FType_FTuple, result) && len(FType_FTuple_Value(result).ElemTypes) == len(FType_FTuple_Value(ftp).ElemTypes) && (forall k int :: {FType_FTuple_Value(result).ElemTypes[k]} 0 <= k && k < len(FType_FTuple_Value(ftp).ElemTypes) && is(FType_FTypeVar, FType_FTuple_Value(ftp).ElemTypes[k]) ==> FType_FTuple_Value(result).ElemTypes[k] == transTV(FType_FTypeVar_Value(FType_FTuple_Value(ftp).ElemTypes[k])))
+//@   ensures C15 C16 the-element-type-of-a-slice-is-translated: is(FType_FSlice, ftp) ==> is(FType_FSlice, result) && (is(FType_FTypeVar, FType_FSlice_Value(ftp).ElemType) ==> FType_FSlice_Value(result).ElemType == transTV(FType_FTypeVar_Value(FType_FSlice_Value(ftp).ElemType)))
 //@   inline-call Map
 //@   inline-call transRecType#0
 //@   loop Map/0 index i:
 //@     invariant grows: dsubset(G, domof(visited.Dict.Fdict))
+//@     invariant translated-so-far: len(res) == i && (forall k int :: {res[k]} 0 <= k && k < i && is(FType_FTypeVar, s[k]) ==> res[k] == transTV(FType_FTypeVar_Value(s[k])))
 //@   at after call SSetPut#0: G = domof(visited.Dict.Fdict)
 
 //@ func collectTVarFType
@@ -2265,3 +2270,60 @@ package main
 //@   inline-call slice.Fold#0
 //@   loop slice.Fold#0/0 index i:
 //@     invariant announced-so-far: glob(stdout) == old(glob(stdout)) + announce_log(files, i)
+
+// a record definition: the fields written (in a child scope that knows the type parameters), registered
+// under its name in the scope the definition was given - so that later members of the group see it
+//@ func parseRecordDef
+//@   props C03 C15
+//@   modifies maps glob:typeregs
+//@   ghost L int                 -- the registration log after the type parameters were made known
+//@   ghost PF ParseState         -- the state at which the field list starts
+//@   requires live: live(ps0)
+//@   panics may
+//@   ensures definition: result.E1.Name == tname && result.E1.Tparams == pnames && (exists pe ParseState :: {Rfields(PF, pe, result.E1.Fields)} Rfields(PF, pe, result.E1.Fields) && pe.tkz.current.ttype == New_TokenType_RBRACE)
+//@   ensures fields-in-a-child-scope: scparent(PF.scope) == ps0.scope && PF.scope != ps0.scope
+//@   ensures registered-in-the-scope-given: glob(typeregs) == reg_rec(L, ps0.scope, tname)
+//@   ensures scope-restored: result.E0.scope == ps0.scope
+//@   at after call psRegTypeVars#0: L = glob(typeregs)
+//@   at after call psConsume#0: PF = ret
+
+//@ func parseOneCaseDef
+//@   props C03
+//@   modifies maps
+//@   requires live: live(ps)
+//@   panics may
+//@   ensures grammar: Rcase(ps, result.E0, result.E1)
+//@   ensures live: live(result.E0) && samebuf(result.E0, ps) && result.E0.tkz.current.begin > ps.tkz.current.begin
+//@   ensures frame: result.E0.scope == ps.scope && result.E0.offsideCol == ps.offsideCol
+
+//@ func parseCaseDefs
+//@   props C03
+//@   modifies maps
+//@   requires live: live(ps)
+//@   panics may
+//@   decreases rem(ps)
+//@   ensures grammar: Rcases(ps, result.E0, result.E1)
+//@   ensures live: live(result.E0) && samebuf(result.E0, ps)
+//@   ensures frame: result.E0.scope == ps.scope && result.E0.offsideCol == ps.offsideCol
+
+//@ func NewUnionDef
+//@   props C03
+//@   panics never
+//@   returns mk_main_UnionDef(name, tparams, cases)
+
+// a union definition: the cases written, in order (in a child scope that knows the type parameters); the type
+// and the constructors of all cases are registered in the scope the definition was given
+//@ func parseUnionDef
+//@   props C03 C15
+//@   modifies maps glob:typeregs glob:vardefs
+//@   ghost L int                 -- the registration log after the type parameters were made known
+//@   ghost PC ParseState         -- the state at which the case list starts
+//@   requires live: live(ps0)
+//@   panics may
+//@   ensures definition: result.E1.Name == tname && result.E1.Tparams == pnames && (exists pe ParseState :: {Rcases(PC, pe, result.E1.Cases)} Rcases(PC, pe, result.E1.Cases))
+//@   ensures cases-in-a-child-scope: scparent(PC.scope) == ps0.scope && PC.scope != ps0.scope
+//@   ensures type-registered-in-the-scope-given: glob(typeregs) == reg_type(L, ps0.scope, tname)
+//@   ensures constructors-registered-in-the-scope-given: glob(vardefs) == ctor_log(old(glob(vardefs)), ps0.scope, result.E1, len(result.E1.Cases))
+//@   ensures scope-restored: result.E0.scope == ps0.scope
+//@   at after call psRegTypeVars#0: L = glob(typeregs)
+//@   at before call parseCaseDefs#0: PC = $0
